@@ -188,16 +188,17 @@ func (db *DB) Delete(key []byte) {
 }
 
 func (db *DB) Get(key []byte) (kv.Entry, error) {
-	sstables := db.currentSSTables()
-
 	// First try to get from the memtables
 	v, err := db.mtables.Get(key)
 	if err == nil {
 		return v, nil
 	}
 
-	// Then try the SSTables
+	// Then try the SSTables. The tables must be read after the memtables: a
+	// flush publishes its table before it dequeues the memtable, so in this
+	// order an entry is always found in at least one of them.
 	if err == kv.ErrNotFound {
+		sstables := db.currentSSTables()
 		return sstables.Get(key)
 	}
 
@@ -205,8 +206,10 @@ func (db *DB) Get(key []byte) (kv.Entry, error) {
 }
 
 func (db *DB) ScanPrefix(prefix []byte, errOut *error) iter.Seq[kv.Entry] {
+	// Snapshot the memtables before the tables (see Get).
+	mtablesScan := db.mtables.ScanPrefix(prefix, errOut)
 	sstables := db.currentSSTables()
-	iters := []iter.Seq[kv.Entry]{db.mtables.ScanPrefix(prefix, errOut), sstables.ScanPrefix(prefix, errOut)}
+	iters := []iter.Seq[kv.Entry]{mtablesScan, sstables.ScanPrefix(prefix, errOut)}
 	merged := kv.MergeEntries(iters)
 
 	// Memtable tombstones take part in the merge to shadow older entries and
